@@ -179,6 +179,14 @@ def o61(ctx):
     ctx.touched(q, "geom.visualize_angles", "geom.visualize_rotations")
     it = Interp(ctx.prog)
     r = it.run(q, [Arr([sym("phi"), sym("theta"), sym("psi")], 2)], {})
+    amb = [e for e in it.events if e.kind == "typing" and e.name == "ambiguous-transpose"]
+    ctx.count(1)
+    if amb:
+        ma, _ = ctx.prog.func(amb[0].fn)
+        ctx.finding(amb[0].fn, amb[0].node, f"an (n, {amb[0].extra['width']}) batch of orientations is transposed when its row count equals "
+                    f"{amb[0].extra['width']}: for exactly {amb[0].extra['width']} orientations the two layouts cannot be told apart, so the angles of "
+                    "the particles are mixed across rows", amb[0].node, ma)
+        return
     a = as_arr_(r.ret)
     if a is None or len(a.cols) != 3:
         raise Unsupported("euler_angles_to_normals does not return an (N,3) array", fn)
